@@ -19,3 +19,19 @@ def register(claim):
           "the .I files on every run and decided by the kernel. Full index x position sweeps of all 170 interface functions run against the real library.",
           "Memory safety itself is observed (harness, embedded fptr table), not proved. module/library name accessors are not modelled.",
           "Lean 4 proof (invariant over op sequences, binary-search correctness) + extracted guard list + differential correspondence", "DESIGN.md §5 C20")
+    claim("C11",
+          "Lean 4 theorems about remap_indices over the layout-directed database model: wrappers receive exactly first..first+n-1, the other kinds "
+          "follow consecutively, the returned next index is first + number of entries (c11_wrappers_first, c11_ranges); every index-typed member "
+          "(read from the headers) is passed through remap.map_from() by its class (c11_field_coverage, decided by the kernel on regenerated facts). "
+          "The model's remap_indices/closure/link verdicts are tied to the real library on closed and dangling databases; databases produced by "
+          "interrogate from generated headers x back-ends are checked against the property's oracle incl. a g++ redeclaration check of C signatures.",
+          "Partial: closure preservation is tied by correspondence, not yet a Lean theorem; agreement of C signature text is a compile check (exploration).",
+          "Lean 4 proof (consecutive renumbering) + regenerated index/remap member facts + differential correspondence", "DESIGN.md §5 C11")
+    claim("C13",
+          "Lean 4 theorems: global-ness of a merged type is the union, the fully defined definition wins in either order (merge_with), compiled-in "
+          "modules and database files each receive their own contiguous index range, and for every history of requests/lookups/queries each lookup "
+          "first loads all pending files and answers from the current maps (cache invariant by induction). merge_from itself is modelled verbatim and "
+          "tied to the real library over every load order of generated library sets, with lookups interleaved.",
+          "Partial: order independence up to isomorphism and closure of the merged database are decided per run by exhaustive permutation "
+          "(k<=3 quick, k<=4 thorough) against the disjoint-union oracle, not by a Lean theorem. Conflicting fully-defined definitions are excluded.",
+          "Lean 4 proof (merge_with flag algebra, cache invariant) + differential correspondence over all load orders", "DESIGN.md §5 C13")
